@@ -148,6 +148,10 @@ def corpus(rng):
     C.append(Case(nbw=2, jobsize=512 * 1024, isize=4 * MB, prog="c600000:100000,X0,c2000000:100000,E4194304,E4194304", tag="fault-0"))
     C.append(Case(nbw=2, jobsize=512 * 1024, isize=4 * MB, prog="c600000:100000,X1,c2000000:100000,E4194304,E4194304", tag="fault-1"))
     C.append(Case(nbw=3, jobsize=512 * 1024, isize=5 * MB, prog="X2,c3000000:100000,E4194304,E4194304", tag="fault-2"))
+    # an EMPTY posted job (frame opened with no input, ended with no input): abort / worker failure while it is in flight (finding F31)
+    C.append(Case(nbw=2, jobsize=512 * 1024, isize=2000000, prog="c0:100,e0:0,R,E100000", tag="abort-empty-job"))
+    C.append(Case(nbw=2, jobsize=512 * 1024, isize=2000000, prog="c0:100,X0,e0:100000,E100000", tag="fault-empty-job"))
+    C.append(Case(nbw=1, jobsize=512 * 1024, isize=2000000, prog="f0:100,e0:1,e0:100,E100000", tag="empty-frame-mt"))
     # stage error: continue after the frame ended
     C.append(Case(nbw=2, jobsize=512 * 1024, isize=2 * MB, prog="e1000000:100,c1000:1000,E4194304,E4194304", tag="continue-after-end"))
     out = []
@@ -449,7 +453,7 @@ def compare(cst, mst, skip_win=False):
         diffs.append("cctxPool.availCCtx impl=%s model=%s" % (cp[3], mp[3]))
     if oQ == "-1" and (cp[4] != mp[4] or cp[5] != mp[5]):
         diffs.append("seqPool impl=%s,%s model=%s,%s" % (cp[4], cp[5], mp[4], mp[5]))
-    jn = ["jobID", "src.start", "src.size", "prefix.start", "prefix.size", "consumed", "cSize", "dstBuff", "firstJob", "lastJob", "frameChecksumNeeded", "dstFlushed"]
+    jn = ["jobID", "src.start", "src.size", "prefix.start", "prefix.size", "consumed", "cSize", "dstBuff", "firstJob", "lastJob", "frameChecksumNeeded", "dstFlushed", "jobCompleted"]
     for k, (cj, mj) in enumerate(zip(cst["jobs"], mst["jobs"])):
         cf, mf = cj.split(":"), mj.split(":")
         for i, n in enumerate(jn):
@@ -457,7 +461,7 @@ def compare(cst, mst, skip_win=False):
                 continue
             if i == 3 and cf[4] == "0":
                 continue
-            if i in (5, 6) and jown[k] != "-1":
+            if i in (5, 6, 12) and jown[k] != "-1":
                 continue
             if cf[i] != mf[i]:
                 diffs.append("jobs[%d].%s impl=%s model=%s" % (k, n, cf[i], mf[i]))
